@@ -6,9 +6,9 @@ import re
 import subprocess
 import time
 
-from common import CACHE, VERIF, base_env
+from common import CACHE, VERIF, base_env, crate_root
 
-KANI_CRATE = os.path.join(VERIF, "kani")
+KANI_CRATE = os.path.join(crate_root(), "kani")
 
 # CBMC float checks that are not Rust failures (see DESIGN 2.1).
 IGNORED_CLASSES = {"NaN"}
